@@ -60,8 +60,15 @@ def run(check: Check) -> None:
     wiring.p10_activation_degree_lookup(check)  # "for an output variable, the aggregated activation of that term"
     for cls in c08.ACTIVATIONS:  # "the connectives are computed with the rule block's conjunction and disjunction operators"
         activation_semantics(check, cls, ("conjunction", "disjunction"))
-    x1_format_infix(check)
-    x1_format_infix_semantics(check)
+    # X1-sem decides the spacing by interpretation; X1 (the alternation handed to re.sub, read as a regular expression) adds the exact alphabet where
+    # the pattern is built in a way it can read, and is the fallback where X1-sem is undecided
+    decided = x1_format_infix_semantics(check)
+    try:
+        x1_format_infix(check)
+    except AnalysisError as err:
+        if not decided:
+            raise
+        check.notes.append(f"X1: the pattern is built in a way the alphabet rule cannot read ({err}); the spacing is decided by X1-sem")
     check.exhaustive_parts += ["pop rule over all orderings", "antecedent automaton x grammar automaton", "dispatch cases of activation_degree"]
 
 
@@ -239,7 +246,7 @@ def x1_format_infix(check: Check) -> None:
                   f"`{shadowed[0][0]}` is tried before `{shadowed[0][1]}`, of which it is a prefix: `{shadowed[0][1]}` is split into two tokens", loc(fn))
 
 
-def x1_format_infix_semantics(check: Check, rule: str = "X1-sem") -> None:
+def x1_format_infix_semantics(check: Check, rule: str = "X1-sem") -> bool:
     """X1-sem [E on the corpus]: `Function.format_infix` interpreted (sa/objexec.py; regular expressions on concrete strings have their Python meaning)
     on every formula `a<op>b` for a registered operator symbol (or `(`, `)`, `,`) between two operands drawn from names and numbers of different
     spellings - among them names ending in `e` / `E` and numbers, which a tokeniser that knows about exponents may confuse: the result must be the
@@ -289,9 +296,10 @@ def x1_format_infix_semantics(check: Check, rule: str = "X1-sem") -> None:
     except Unknown as u:
         check.notes.append(f"{rule}: undecided (outside the interpreter's model): {u}")
         check.ok(rule, "Function.format_infix/undecided", f"the spacing of operators is outside the interpreter's model ({u}); decided by X1 only", loc(fn))
-        return
+        return False
     check.require(bad is None, rule, "Function.format_infix/tokens", f"every operator symbol between two operands becomes a token of its own ({n} formulas)" if bad is None else bad,
                   loc(fn), {"formulas": n}, exhaustive=True, cases=n)
+    return True
 
 
 def ex_cls(p):  # type: ignore[no-untyped-def]
